@@ -395,7 +395,7 @@ def run_timelines(ctx, scens, timeout=900, tag="tl"):
     scenarios before it are complete, the offending one is skipped (reported in the evidence) and the run resumes
     after it. Returns (obs, fin, skipped): obs[i] = OBS0/OBS records of scenario i, fin[i] = FIN record or None."""
     n = len(scens)
-    nchunks = max(1, min(max(2, vlib.NCPU // 2), n // 20))
+    nchunks = max(1, min(4, n // 20))
     size = (n + nchunks - 1) // nchunks if n else 1
     chunks = [list(range(i, min(i + size, n))) for i in range(0, n, size)]
     results = vlib.parallel_map(lambda ci: _run_timelines_seq(ctx, scens, chunks[ci], timeout, "%s%d" % (tag, ci)),
@@ -498,8 +498,3 @@ def compare_samples(sc, obs, recs, energy=False, values=True):
                         bad.append("t=%s link %d consumed energy %.17g J, reference %s = %.17g J" %
                                    (r["t"], l + 1, r["lenergy"][l], frac(o["le"][l]), float(frac(o["le"][l]))))
     return bad, n
-
-
-def expand_obs(obs):
-    """OBS0 (date 0) + OBS records; OBS0 carries only sampled values"""
-    return obs
